@@ -7,6 +7,9 @@ SINGLE = [(t, s) for t, s in textgen.TEMPLATES if t.count("{}") == 1 and "{0}" n
 ENCLOSE = [("", ""), ('"', '"'), ("'", "'"), ("[", "]"), ("{", "}"), ("", ";"), ("", ","), ('"', '";'), ("\\'", "\\'"), ('\\"', '\\"')]
 
 
+ENCLOSE_REPEAT = [('""', '""'), ("", "}}"), ("[[", "]]"), ("{{", "}}"), ('"', '"}}'), ("''", "''"), ("", ";;"), ('{"', '"}}'), ("[", "]]")]   # the same enclosing character several times in a row
+
+
 def norm_ws(s):
     return " ".join(s.split())
 
